@@ -225,6 +225,8 @@ fn main() {
             let out = arg_val(&args, "--out");
             let mut ctx = Ctx::new(&prop, Tier::Quick, w["seed"].as_u64().unwrap_or(0), 0, 1, out.clone());
             ctx.replaying = true;
+            // second stage of the hang rule: one input, alone, 55 s per call (the driver's outer limit is 60 s)
+            stunmon::ctx::set_watchdog_limit(55_000);
             let res = stunmon::mon::replay(&prop, &mut ctx, &w["witness"]);
             let mut v = ctx.finish(None);
             if let Err(e) = res {
